@@ -396,7 +396,8 @@ def zlit(n):
 
 
 def zlist(l):
-    return "[" + "; ".join(zlit(x) for x in l) + "]"
+    # a nil Go slice arrives as JSON null: the empty list
+    return "[" + "; ".join(zlit(x) for x in (l or [])) + "]"
 
 
 def nlit(n):
